@@ -828,6 +828,8 @@ const XERRS: &[(&str, &str)] = &[
     ("XDotSyntax", ". /synt.sh"),
     ("XDotSpecial", ". /shift.sh"),
     ("XPrefixShiftTooMany", "shift 5"),
+    ("XEvalCommandSoft", "eval 'command shift 5'"),
+    ("XDotCommandSoft", ". /cshift.sh"),
 ];
 
 const XPOSITIONS: &[&str] = &[
@@ -909,7 +911,7 @@ impl XSpec {
             t.push_str(&format!("trap 'probe {TRAP_KEY}' EXIT\n"));
         }
         // the files sourced by XDotSyntax / XDotSpecial (not part of the model script: nothing observed)
-        t.push_str("echo if >/synt.sh\necho 'shift 5' >/shift.sh\n");
+        t.push_str("echo if >/synt.sh\necho 'shift 5' >/shift.sh\necho 'command shift 5' >/cshift.sh\n");
         t.push_str("v3=t0\nreadonly v3\n");
         if self.errexit {
             t.push_str("set -e\n");
